@@ -20,7 +20,7 @@ from vlib import coq
 
 COQ_DIRS = ["FockAxes"]
 COQ_TARGETS = ["FockAxes/Model.vo", "FockAxes/Lists.vo", "FockAxes/Proofs.vo", "FockAxes/TwoMode.vo",
-               "FockAxes/Channel.vo", "FockAxes/Exec.vo"]
+               "FockAxes/Channel.vo", "FockAxes/Prepare.vo", "FockAxes/Exec.vo"]
 PROPERTIES_FILE = "Properties/FockAxes.v"
 RULE_FOCK_AXES = ("every ordered choice of 1-2 (thorough: 1-3) target modes of a 1-4 mode register at cutoff 2-3, pure and mixed, "
                   "general and diagonal random integer matrices, random Gaussian-integer states; apply_gate_BLAS, apply_twomode_gate "
@@ -95,10 +95,21 @@ def rand_gate_matrix(rng, trunc, size, kind):
 
 # ---------------------------------------------------------------------------------------------- implementation drivers
 
+# The two-mode kernels are numba-jitted without a cache: every (ndim, memory layout) of the state is a separate
+# compilation (2-10 s each, ~25 of them).  JIT_MAX_NDIM = k means: states of more than k axes run the *same source*
+# through the interpreter (`.py_func`); the jitted kernels are used up to k axes.
+JIT_MAX_NDIM = [3]
+
+
 def _circuit(n, trunc, pure, state):
     from strawberryfields.backends.fockbackend.circuit import Circuit
     c = Circuit(n, trunc, pure=pure)
     c._state = np.array(state, dtype=np.complex128)
+    if c._state.ndim > JIT_MAX_NDIM[0]:
+        for name in ("_apply_two_mode_passive", "_apply_S2"):
+            f = getattr(Circuit, name)
+            if hasattr(f, "py_func"):
+                setattr(c, name, f.py_func)   # instance attribute shadows the jitted staticmethod
     return c
 
 
@@ -126,8 +137,7 @@ def run_impl(case, state=None):
     if op == "prepare":
         c = _circuit(n, trunc, case["pure"], st)
         c.prepare_multimode(dec(case["prep"]), list(case["modes"]))
-        out = np.array(c._state)
-        return out if not c._pure else ("pure", out)
+        return (bool(c._pure), np.array(c._state))
     if op == "alloc":
         c = _circuit(n, trunc, case["pure"], st)
         c.alloc(case["k"])
@@ -188,6 +198,66 @@ def reference(case, state=None):
             out = out + _apply_on_axes(m.conj(), r, [2 * x + 1 for x in modes])
         return out
     raise ValueError(case["op"])
+
+
+def _ref_ptrace(rho, n, modes):
+    """trace out `modes` of a 2n-axis density tensor, highest mode first (np.trace on the (row, col) axis pair)"""
+    for m in sorted(set(modes), reverse=True):
+        if 0 <= m < n:
+            rho = np.trace(rho, axis1=2 * m, axis2=2 * m + 1)
+    return rho
+
+
+def reference_other(case):
+    """independent references for mix / ptrace / prepare / alloc / dealloc; returns (flag_or_None, array)"""
+    op = case["op"]
+    n, trunc = case["n"], case["trunc"]
+    st = dec(case["state"])
+    if op == "mix":
+        return None, _ref_mix(st, n)
+    if op == "ptrace":
+        return None, _ref_ptrace(st, n, case["modes"])
+    if op == "dealloc":
+        rho = _ref_mix(st, n) if case["pure"] else st
+        return None, _ref_ptrace(rho, n, case["modes"])
+    if op == "alloc":
+        k = case["k"]
+        vac = np.zeros([trunc] * (k if case["pure"] else 2 * k), dtype=np.complex128)
+        vac[(0,) * vac.ndim] = 1
+        return None, np.multiply.outer(st, vac)
+    if op == "prepare":
+        modes = list(case["modes"])
+        k = len(modes)
+        prep = dec(case["prep"])
+        if n == k:
+            pure_out = bool(case["prep_pure"])
+            src = modes if pure_out else [x for m in modes for x in (2 * m, 2 * m + 1)]
+            return pure_out, np.moveaxis(prep, list(range(prep.ndim)), src)
+        rho = _ref_mix(st, n) if case["pure"] else st
+        pm = _ref_mix(prep, k) if case["prep_pure"] else prep
+        red = _ref_ptrace(rho, n, modes)
+        spect = [x for x in range(n) if x not in modes]
+        outer = np.multiply.outer(red, pm)
+        dest = [x for m in spect + modes for x in (2 * m, 2 * m + 1)]
+        return False, np.moveaxis(outer, list(range(2 * n)), dest)
+    raise ValueError(op)
+
+
+def wrong_other(case):
+    try:
+        o = run_impl(case)
+    except Exception as ex:
+        return "raises %s: %s" % (type(ex).__name__, ex)
+    flag, out = o if isinstance(o, tuple) else (None, o)
+    rflag, ref = reference_other(case)
+    if flag != rflag:
+        return "purity flag %s instead of %s" % (flag, rflag)
+    if out.shape != ref.shape:
+        return "shape %s instead of %s" % (out.shape, ref.shape)
+    if not np.array_equal(out, ref):
+        bad = np.argwhere(out != ref)
+        return "%d of %d entries differ from the independent reference (first at %s)" % (len(bad), out.size, bad[0].tolist())
+    return None
 
 
 def _ref_mix(st, n):
@@ -287,6 +357,61 @@ def gen_cases(ctx):
                         cases.append({"op": "twomode", "pure": pure, "n": n, "trunc": trunc, "modes": list(modes), "gate": gate,
                                       "mat": enc(rand_tensor(rng, [trunc] * 4, -2, 2)),
                                       "state": enc(rand_tensor(rng, [trunc] * (n if pure else 2 * n)))})
+    # _apply_channel (two Kraus operators, one general one diagonal; plus the empty list)
+    for trunc in (2, 3):
+        for n in (1, 2, 3):
+            for size in (1, 2):
+                if size > n:
+                    continue
+                for modes in itertools.permutations(range(n), size):
+                    for pure in (True, False):
+                        if trunc ** (2 * n) > cap or (trunc == 3 and size == 2 and not thorough and rng.random() < 0.5):
+                            continue
+                        kraus = [enc(rand_gate_matrix(rng, trunc, size, kd)) for kd in ("general", "diag")]
+                        if rng.random() < 0.1:
+                            kraus = []
+                        cases.append({"op": "channel", "pure": pure, "n": n, "trunc": trunc, "modes": list(modes), "kraus": kraus,
+                                      "state": enc(rand_tensor(rng, [trunc] * (n if pure else 2 * n), -2, 2))})
+    # ops.mix
+    for trunc in (2, 3):
+        for n in (1, 2, 3):
+            cases.append({"op": "mix", "n": n, "trunc": trunc, "state": enc(rand_tensor(rng, [trunc] * n))})
+    # ops.partial_trace / dealloc
+    for trunc in (2, 3):
+        for n in (1, 2, 3):
+            if trunc ** (2 * n) > cap:
+                continue
+            for size in range(0, n + 1):
+                for modes in itertools.permutations(range(n), size):
+                    if list(modes) != sorted(modes) and rng.random() < 0.5:
+                        continue
+                    cases.append({"op": "ptrace", "n": n, "trunc": trunc, "modes": list(modes),
+                                  "state": enc(rand_tensor(rng, [trunc] * (2 * n)))})
+                    if size >= 1:
+                        pure = rng.random() < 0.5
+                        cases.append({"op": "dealloc", "pure": pure, "n": n, "trunc": trunc, "modes": list(modes),
+                                      "state": enc(rand_tensor(rng, [trunc] * (n if pure else 2 * n), -2, 2))})
+    # alloc
+    for trunc in (2, 3):
+        for n in (1, 2):
+            for k in (1, 2):
+                for pure in (True, False):
+                    cases.append({"op": "alloc", "pure": pure, "n": n, "k": k, "trunc": trunc,
+                                  "state": enc(rand_tensor(rng, [trunc] * (n if pure else 2 * n)))})
+    # prepare_multimode
+    for trunc in (2, 3):
+        for n in (1, 2, 3):
+            if trunc ** (2 * n) > cap:
+                continue
+            for size in range(1, n + 1):
+                for modes in itertools.permutations(range(n), size):
+                    for pure in (True, False):
+                        for prep_pure in (True, False):
+                            if trunc == 3 and not thorough and rng.random() < 0.5:
+                                continue
+                            cases.append({"op": "prepare", "pure": pure, "prep_pure": prep_pure, "n": n, "trunc": trunc, "modes": list(modes),
+                                          "prep": enc(rand_tensor(rng, [trunc] * (size if prep_pure else 2 * size), -2, 2)),
+                                          "state": enc(rand_tensor(rng, [trunc] * (n if pure else 2 * n), -2, 2))})
     return cases
 
 
@@ -304,7 +429,7 @@ Definition L (a b : Z) : tree := Leaf (a, b).
 """
 
 
-def coq_case(case, i, out):
+def coq_case(case, i, out, flag=None):
     """Coq text defining r<i> : list (list nat * C) = positions where the model differs from `out`."""
     op = case["op"]
     n, trunc = case["n"], case["trunc"]
@@ -328,6 +453,32 @@ def coq_case(case, i, out):
         else:
             model = "apply_twomode_mixed (%s (tget mat%d) %d) (%s (conj_tensor (tget mat%d)) %d) %d %d %d (tget st%d)" % (
                 kern, i, trunc, kern, i, trunc, n, a, b, i)
+    elif op == "channel":
+        size = len(case["modes"])
+        gs = []
+        for q, kk in enumerate(case["kraus"]):
+            t.append("Definition k%d_%d : tree := %s." % (i, q, coq_tree(dec(kk))))
+            gs.append("G_gate (tget k%d_%d) %d %d" % (i, q, size, trunc))
+        gl = "[" + "; ".join(gs) + "]"
+        if case["pure"]:
+            model = "apply_channel_from_pure cmul cadd cconj czero %s %d %s (tget st%d)" % (gl, n, modes, i)
+        else:
+            model = "apply_channel cadd czero %s %d %s (tget st%d)" % (gl, n, modes, i)
+    elif op == "mix":
+        model = "mix cmul cconj %d (tget st%d)" % (n, i)
+    elif op == "ptrace":
+        model = "partial_trace %d %d %s (tget st%d)" % (trunc, n, modes, i)
+    elif op == "dealloc":
+        model = "dealloc %s %d %d %s (tget st%d)" % (coq.coq_bool(case["pure"]), trunc, n, modes, i)
+    elif op == "alloc":
+        model = "alloc %s %d (tget st%d)" % (coq.coq_bool(case["pure"]), n, i)
+    elif op == "prepare":
+        t.append("Definition pr%d : tree := %s." % (i, coq_tree(dec(case["prep"]))))
+        t.append("Definition m%d := prepare_multimode %s %s %d %d %s (tget st%d) (tget pr%d)." % (
+            i, coq.coq_bool(case["pure"]), coq.coq_bool(case["prep_pure"]), trunc, n, modes, i, i))
+        t.append("Definition r%d := if Bool.eqb (fst m%d) %s then mismatches (snd m%d) ex%d %d %d else [([], czero)]." % (
+            i, i, coq.coq_bool(flag), i, i, trunc, rank))
+        return "\n".join(t)
     else:
         raise ValueError(op)
     t.append("Definition r%d := mismatches (%s) ex%d %d %d." % (i, model, i, trunc, rank))
@@ -350,6 +501,7 @@ def small(case):
 
 
 def correspondence_fock_axes(ctx):
+    JIT_MAX_NDIM[0] = 2 if ctx.quick else 6
     cases = gen_cases(ctx)
     outs = []
     for c in cases:
@@ -357,7 +509,7 @@ def correspondence_fock_axes(ctx):
                  bucket="fock-axes:%s:%s" % (c["op"], "pure" if c.get("pure", True) else "mixed"))
         try:
             o = run_impl(c)
-            if isinstance(o, tuple) or not is_integral(o):
+            if not is_integral(o[1] if isinstance(o, tuple) else o):
                 raise ArithmeticError("non-integral output")
         except Exception as ex:
             ctx.counterexample(signature(c) + ":raises:" + type(ex).__name__, "%s raised %r on %s" % (c["op"], ex, {k: c[k] for k in ("n", "trunc", "modes") if k in c}),
@@ -366,6 +518,8 @@ def correspondence_fock_axes(ctx):
         outs.append(o)
     # model evaluation, sharded by cost
     todo = [(i, c, o) for i, (c, o) in enumerate(zip(cases, outs)) if o is not None]
+    flags = {i: o[0] for i, c, o in todo if isinstance(o, tuple)}
+    todo = [(i, c, o[1] if isinstance(o, tuple) else o) for i, c, o in todo]
     todo.sort(key=lambda x: -x[2].size)
     nshards = 12
     shards = [[] for _ in range(nshards)]
@@ -373,14 +527,14 @@ def correspondence_fock_axes(ctx):
     for item in todo:
         k = load.index(min(load))
         shards[k].append(item)
-        load[k] += item[2].size * (40 if not item[1].get("pure", True) else 10) + 200
+        load[k] += item[2].size * (40 if not item[1].get("pure", True) else 10) + 200 + (item[2].size * 30 if item[1]["op"] in ("prepare", "dealloc", "ptrace") else 0)
     shards = [s for s in shards if s]
 
     def run_shard(si):
         sh = shards[si]
         text = [HEADER]
         for i, c, o in sh:
-            text.append(coq_case(c, i, o))
+            text.append(coq_case(c, i, o, flags.get(i)))
         text.append("Eval vm_compute in [%s]." % "; ".join("r%d" % i for i, _, _ in sh))
         return coq.eval_file(ctx.work, "fockaxes_%d" % si, "\n".join(text), timeout=900)
 
@@ -414,6 +568,12 @@ def report_mismatch(ctx, c, mism):
             found = True
             ctx.counterexample(sig + ":wrong-axes", "%s on modes %s of a %d-mode %s register (cutoff %d): %s" % (
                 c["op"], c["modes"], c["n"], "pure" if c["pure"] else "mixed", c["trunc"], wa), dict(data, predicate="reference"))
+    else:
+        wo = wrong_other(c)
+        if wo:
+            found = True
+            ctx.counterexample(sig + ":wrong-axes", "%s (modes %s, n=%d, cutoff %d): %s" % (c["op"], c.get("modes"), c["n"], c["trunc"], wo),
+                               dict(data, predicate="reference"))
     if not found:
         ctx.disagreement(sig, "model and implementation of %s differ on modes %s, n=%d, cutoff %d (%d entries)" % (
             c["op"], c.get("modes"), c["n"], c["trunc"], len(mism)), data)
@@ -428,10 +588,12 @@ def replay_fock_axes(ctx, data):
     if pred == "locality":
         r = locality_violation(c)
     elif pred == "reference":
-        r = wrong_action(c)
+        r = wrong_action(c) if c["op"] in ("gate", "twomode", "channel") else wrong_other(c)
     else:
         r = None
         if c["op"] in ("gate", "twomode", "channel"):
             r = locality_violation(c) or wrong_action(c)
+        else:
+            r = wrong_other(c)
     print(r)
     return bool(r)
